@@ -100,7 +100,7 @@ def r3(cx, chk, cfg, F, f):
 def hit_on_key(p, ev, KP):
     """the lookup was made with (a reference to a local holding) the caller's key"""
     ks = p.events[ev[0]].get("keysrc")
-    if ks == KP:
+    if ks == KP or ks == ("kv", KP):
         return True
     if isinstance(ks, tuple) and ks[0] == "ref" and ks[1][0] in ("L", "T"):
         v = READER.read(p.st, ks[1])
@@ -148,7 +148,7 @@ def r5(cx, chk, cfg, F, short, adt):
     n = 0
     for f_, p, w in ntrun.walk(cx, cfg, only=lambda g: g["path"] == f["path"]):
         n += 1
-        hits = [ev for ev in w.events_on if ev[1] == "unindex" and p.events[ev[0]].get("keysrc") == kparam]
+        hits = [ev for ev in w.events_on if ev[1] == "unindex" and p.events[ev[0]].get("keysrc") in (kparam, ("kv", kparam))]
         rv = p.ret
         var = rv[2][1] if isinstance(rv, tuple) and rv[0] == "agg" and rv[1] == "adt" else None
         if var is None:
